@@ -125,6 +125,35 @@ def run(ctx: Ctx, tier: str) -> Result:
         res.fail(Finding("C13.MATCH", rem.qname, reassign[0], rem.loc(reassign[0]), "remove_custom rebuilds the custom list: may remove several registrations"))
     else:
         res.fail(Finding("C13.MATCH", rem.qname, "<del custom[idx]>", rem.loc(), "remove_custom deletes %d times" % len(dels)))
+    # the entry that is deleted is the one that was looked up: the whole list is searched, and the delete is guarded by
+    # identity (or equality) of the element with the registration's own trigger
+    for dl in dels:
+        lps_ = [l for l in paths.enclosing_loops(p, dl, rem) if isinstance(l, ast.For)]
+        if not lps_:
+            continue
+        it_ = lps_[0].iter
+        whole = norm(it_) in (custom_field, "enumerate(%s)" % custom_field, "list(%s)" % custom_field, "list(enumerate(%s))" % custom_field,
+                              "range(len(%s))" % custom_field, "reversed(list(enumerate(%s)))" % custom_field)
+        elem = norm(lps_[0].target.elts[1]) if isinstance(lps_[0].target, ast.Tuple) and len(lps_[0].target.elts) == 2 else norm(lps_[0].target)
+        conds_ = [(c_, pol) for c_, pol in paths.conditions(p, dl, rem) if paths.within(p, c_, lps_[0])]
+        ident = [c_ for c_, pol in conds_ if pol and isinstance(c_, ast.Compare) and len(c_.ops) == 1 and isinstance(c_.ops[0], (ast.Is, ast.Eq))
+                 and elem in (norm(c_.left), norm(c_.comparators[0]))]
+        if whole and ident and len(conds_) == len(ident):
+            res.ok("C13.MATCH", {"searches the whole list; deletes the element that is the registration's trigger": norm(ident[0])})
+        else:
+            res.fail(Finding("C13.MATCH", rem.qname, dl, rem.loc(dl), "the entry deleted is not found by comparing every registered trigger with the one looked up "
+                             "(iterates `%s`, guarded by %s): another registration is removed, or none" % (norm(it_)[:50], [norm(c_)[:40] for c_, _ in conds_])))
+    # the only way out before the deletion is `nothing was registered under this handle`
+    if lookups and dels:
+        lk_st = paths.stmt_of(p, lookups[0])
+        lk_name = norm(lk_st.targets[0]) if isinstance(lk_st, ast.Assign) else None
+        for r_ in [n for n in t.nodes_in(rem, ast.Return) if n.lineno < dels[0].lineno and not paths.enclosing_loops(p, n, rem)]:
+            cs_ = [(norm(c_), pol) for c_, pol in paths.conditions(p, r_, rem)]
+            if lk_name and cs_ in ([("%s is None" % lk_name, True)], [("%s is not None" % lk_name, False)], [("not %s" % lk_name, True)]):
+                res.ok("C13.MATCH", {"returns early only for an unknown handle": cs_[0][0]})
+            else:
+                res.fail(Finding("C13.MATCH", rem.qname, r_, rem.loc(r_), "remove_custom returns before removing when `%s`: a valid handle does not remove its tracepoint" % (
+                    " and ".join(("" if pol else "not ") + c_ for c_, pol in cs_) or "always")))
     raises = [n for n in t.nodes_in(rem, ast.Raise)]
     risky = []
     for s_, esc_ in g.unguarded_sites(rem):
